@@ -17,10 +17,10 @@ from vlib import F, Malformed, Scene, arc_center, build_driver, key_of, main, rn
 ID = 'C14'
 LEVEL = 'exploration'
 RULE = ('arrowheads: lines of length 1..40 in 8 directions x glyphs > < ^ v V and triangle glyphs x 2 offsets; bullets * o O at an '
-        'end (8 directions) or mid-line x lengths 1..24 x 2 offsets; rounded outlines 1..30 x 1..15 in 3 corner styles, kept from '
+        'end (8 directions) or mid-line x lengths 1..24 x 2 offsets; a bullet and an arrowhead on one line (tail bullet or bullet next to the head, 8 directions); rounded outlines 1..30 x 1..15 in 3 corner styles, kept from '
         'being endorsed as a rect by an attached stub; non-trivial = every distinct case')
 ASSUMPTIONS = ['diagonal arrowheads exist for v V ^ only (the triangle glyphs are axis-parallel)']
-FLOORS = {'quick': {'arrowheads': 500, 'bullets': 500, 'outlines': 200}, 'thorough': {'arrowheads': 1600, 'bullets': 1400, 'outlines': 1300}}
+FLOORS = {'quick': {'arrowheads': 500, 'bullets': 500, 'combos': 300, 'outlines': 200}, 'thorough': {'arrowheads': 1600, 'bullets': 1400, 'combos': 2000, 'outlines': 1300}}
 MK = {'*': 'circle', 'o': 'open_circle', 'O': 'big_open_circle'}
 DIRS = {'right': (1, 0), 'left': (-1, 0), 'down': (0, 1), 'up': (0, -1), 'downright': (1, 2), 'downleft': (-1, 2), 'upleft': (-1, -2), 'upright': (1, -2)}
 
@@ -66,6 +66,26 @@ def bullet_cases(lengths):
             yield ('v-mid', b, n, ['|'] * n + [b] + ['|'] * n, (0, n))
 
 
+def combo_cases(lengths):
+    for n in lengths:
+        for b in '*oO':
+            for g in '>▶':
+                yield ('right', b, g, n, [b + '-' * n + g], (0, 0))
+                yield ('right', b, g, n, ['--' + b + '-' * (n - 1) + g], (2, 0))
+            for g in '<◀':
+                yield ('left', b, g, n, [g + '-' * n + b], (n + 1, 0))
+                yield ('left', b, g, n, [g + '-' * (n - 1) + b + '--'], (n, 0))
+            for g in 'vV▼':
+                yield ('down', b, g, n, [b] + ['|'] * n + [g], (0, 0))
+            for g in '^▲':
+                yield ('up', b, g, n, [g] + ['|'] * n + [b], (0, n + 1))
+            for g in 'vV':
+                yield ('downright', b, g, n, [b] + gen.diag('\\', n, '\\', 1) + [' ' * (n + 1) + g], (0, 0))
+                yield ('downleft', b, g, n, [' ' * (n + 1) + b] + gen.diag('/', n, '/', 1) + [g], (n + 1, 0))
+            yield ('upright', b, '^', n, [' ' * (n + 1) + '^'] + gen.diag('/', n, '/', 1) + [b], (0, n + 1))
+            yield ('upleft', b, '^', n, ['^'] + gen.diag('\\', n, '\\', 1) + [' ' * (n + 1) + b], (n + 1, n + 1))
+
+
 def flat_of(sc):
     return [e for e, _ in sc.flat()]
 
@@ -76,8 +96,33 @@ def check_arrow(sc, dirn):
     lines = [e for e in flat if e[0] == 'line']
     if len(polys) != 1 or len(lines) != 1 or len(flat) != 2:
         return 'expected one line and one polygon, got %s' % [show_el(e) for e in flat[:4]]
+    return arrow_vs_line(polys, lines[0], dirn)
+
+
+def check_combo(sc, b, cx, cy, dirn):
+    """a bullet and an arrowhead on one line: both the bullet rule and the arrowhead rule"""
+    flat = flat_of(sc)
+    polys = [e for e in flat if e[0] == 'polygon']
+    lines = [e for e in flat if e[0] == 'line']
+    if any(e[0] == 'text' for e in flat):
+        return 'shown as text: %s' % [show_el(e) for e in flat if e[0] == 'text']
+    if len(polys) != 1 or not lines or len(polys) + len(lines) != len(flat):
+        return 'expected lines and exactly one arrowhead polygon, got %s' % [show_el(e) for e in flat[:5]]
+    msgs = [arrow_vs_line(polys, l, dirn) for l in lines]
+    if all(msgs):
+        return 'the arrowhead fits none of the lines: ' + msgs[-1]
+    marked = [e for e in lines if any(c.endswith('marked_' + MK[b]) for c in e[1])]
+    for e in marked:
+        for c in e[1]:
+            if c == 'end_marked_' + MK[b] and (e[4], e[5]) == (cx, cy):
+                return None
+            if c == 'start_marked_' + MK[b] and (e[2], e[3]) == (cx, cy):
+                return None
+    return 'no line is marked with %s at the centre (%s,%s) of the bullet cell: %s' % (MK[b], cx, cy, [show_el(e) for e in lines])
+
+
+def arrow_vs_line(polys, L, dirn):
     Pg = polys[0][2]
-    L = lines[0]
     a, b = (L[2], L[3]), (L[4], L[5])
     if 'filled' not in polys[0][1] or len(Pg) != 3:
         return 'arrowhead is not a filled triangle: %s' % show_el(polys[0])
@@ -167,6 +212,9 @@ def check_case(ctx, case):
     elif k == 'bullet':
         bx, by = case['at']
         msg = check_bullet(sc, case['glyph'], F((ox + bx) * 8 + 4), F((oy + by) * 16 + 8))
+    elif k == 'combo':
+        bx, by = case['at']
+        msg = check_combo(sc, case['bullet'], F((ox + bx) * 8 + 4), F((oy + by) * 16 + 8), case['what'])
     else:
         msg = check_outline(sc)
     if msg:
@@ -185,6 +233,11 @@ def run_shard(ctx, shard):
             for ox, oy in offs:
                 ctx.run_case({'kind': 'arrowhead', 'what': dirn, 'glyph': g, 'n': n, 'rows': rows, 'ox': ox, 'oy': oy})
         ctx.sample({'arrow': rows})
+    elif k == 'combos':
+        for dirn, b, g, n, rows, at in combo_cases(shard['lengths']):
+            for ox, oy in offs:
+                ctx.run_case({'kind': 'combo', 'what': dirn, 'glyph': g, 'bullet': b, 'n': n, 'rows': rows, 'at': at, 'ox': ox, 'oy': oy})
+        ctx.sample({'combo': rows})
     elif k == 'bullets':
         for name, b, n, rows, at in bullet_cases(shard['lengths']):
             for ox, oy in [(0, 0), (2, 1)]:
@@ -234,11 +287,13 @@ def execute(run):
     if run.tier == 'quick':
         shards += [{'kind': 'arrows', 'name': 'arrows-%d' % i, 'lengths': list(range(1 + i, 41, 4))} for i in range(4)]
         shards += [{'kind': 'bullets', 'name': 'bullets-%d' % i, 'lengths': list(range(1 + i, 25, 4))} for i in range(4)]
+        shards += [{'kind': 'combos', 'name': 'combos-%d' % i, 'lengths': list(range(1 + i, 13, 4))} for i in range(4)]
         for st in range(3):
             shards += [{'kind': 'outlines', 'name': 'outlines-%d-%d' % (st, i), 'style': st, 'widths': [1, 2, 3, 4, 5, 8, 13, 21, 29, 30][i::2], 'heights': [1, 2, 3, 4, 7, 11, 15]} for i in range(2)]
     else:
         shards += [{'kind': 'arrows', 'name': 'arrows-%d' % i, 'lengths': list(range(1 + i, 41, 8))} for i in range(8)]
         shards += [{'kind': 'bullets', 'name': 'bullets-%d' % i, 'lengths': list(range(1 + i, 41, 8))} for i in range(8)]
+        shards += [{'kind': 'combos', 'name': 'combos-%d' % i, 'lengths': list(range(1 + i, 41, 8))} for i in range(8)]
         for st in range(3):
             shards += [{'kind': 'outlines', 'name': 'outlines-%d-%d' % (st, i), 'style': st, 'widths': list(range(1 + i, 31, 6)), 'heights': list(range(1, 16))} for i in range(6)]
         run.extra_cov['exhaustive_scopes'] = ['arrow glyphs x 8 directions x lengths 1..40 x 2 offsets', 'bullets x 10 placements x lengths 1..40 x 2 offsets',
